@@ -2,7 +2,8 @@
    Property theorems only; proofs live in lib/RequestsProofs.v.  `run ops` is the state of the calling Broker
    after an ARBITRARY finite sequence of: callRemote / callRemoteOnly / locally rejected call, answer / error /
    answer-violation arriving for any request id, complete() or fail() invoked on any request object at any time
-   (send failure, late answer), connectionLost / shutdown, and turns of the eventual-send queue. *)
+   (send failure, late answer), connectionLost / shutdown with any reason (a class listed in LOST_CONNECTION_ERRORS, a proper subclass of one,
+   or an unrelated exception), and turns of the eventual-send queue. *)
 From Coq Require Import ZArith List Bool.
 Import ListNotations.
 Require Import Verif.gen.RequestsGen Verif.lib.Requests Verif.lib.RequestsProofs.
@@ -52,8 +53,8 @@ Print Assumptions C03_drained_after_loss.
 
 (* ... and that state is reached: after any history, connectionLost/shutdown followed by as many turns of the
    eventual queue as it has entries leaves nothing pending and every callRemote fired exactly once *)
-Theorem C03_loss_then_drain : forall ops o,
-  let s1 := run (ops ++ [Finish o]) in
+Theorem C03_loss_then_drain : forall ops r,
+  let s1 := run (ops ++ [Finish r]) in
   let s2 := run_from s1 (repeat Turn (List.length (evq s1))) in
   disconnected s2 = true /\ evq s2 = [] /\ table s2 = [] /\
   List.length (calls s2) = List.length (calls (run ops)) /\
@@ -100,3 +101,29 @@ Theorem C03_call_after_loss_is_dead : forall ops k,
             table s' = table (run ops) /\ evq s' = evq (run ops).
 Proof. exact call_after_loss_is_dead. Qed.
 Print Assumptions C03_call_after_loss_is_dead.
+
+(* "... or with DeadReferenceError once the connection is gone": the translated test of abandonAllRequests maps every
+   lost-connection reason -- the listed classes and every subclass of them -- to DeadReferenceError; other reasons
+   (shutdown with an application error) pass through *)
+Theorem C03_lost_reason_is_DeadReferenceError : forall r, is_lost r = true -> reason_outcome r = ODeadRef.
+Proof. exact lost_reason_is_DeadReferenceError. Qed.
+Print Assumptions C03_lost_reason_is_DeadReferenceError.
+
+(* every callRemote pending when the connection ends fires with exactly the outcome the reason maps to, whatever was
+   outstanding and however the queued failures are drained *)
+Theorem C03_loss_outcome : forall ops r h c,
+  disconnected (run ops) = false -> get (run ops) h = Some c -> c_twoway c = true -> c_fires c = [] ->
+  let s1 := run (ops ++ [Finish r]) in
+  let s2 := run_from s1 (repeat Turn (List.length (evq s1))) in
+  exists c', get s2 h = Some c' /\ c_fires c' = [reason_outcome r].
+Proof. exact loss_outcome. Qed.
+Print Assumptions C03_loss_outcome.
+
+Theorem C03_lost_connection_gives_DeadReferenceError : forall ops r h c,
+  is_lost r = true ->
+  disconnected (run ops) = false -> get (run ops) h = Some c -> c_twoway c = true -> c_fires c = [] ->
+  let s1 := run (ops ++ [Finish r]) in
+  let s2 := run_from s1 (repeat Turn (List.length (evq s1))) in
+  exists c', get s2 h = Some c' /\ c_fires c' = [ODeadRef].
+Proof. exact lost_connection_gives_DeadReferenceError. Qed.
+Print Assumptions C03_lost_connection_gives_DeadReferenceError.
